@@ -13,7 +13,7 @@
 // (A second finding of the first version - `cast e` reported the line / column of its OPERAND while its span started at the
 //  keyword - was a genuine violation and is repaired in the repository (ed22e30): a bit cast now obeys the uniform rule, and the
 //  special case `line_index` is gone from this specification.)
-// An Err(error) carries one of the parser's four located errors; its location is a forward span that does not end after the last token
+// An Err(error) carries one of the parser's located errors (end of file, lexical, unexpected token, depth, illegal type); its location is a forward span that does not end after the last token
 // that was lexed; an UnexpectedEndOfFile points AT the last token
 // of the file (location == last_location == location of the last token), never past it.                         (err_at)
 // ---------------------------------------------------------------------------------------------------------------------------
@@ -84,13 +84,14 @@ pub open spec fn extends_loc(given: Location, t0: Tokens, t1: Tokens, l: Locatio
 	&&& (taken(t0, t1) > 0 ==> l.span.end <= t1.last_location.span.end)
 }
 // ---- errors
-pub open spec fn perr(e: Error) -> bool { e is UnexpectedEndOfFile || e is Lexical || e is UnexpectedToken || e is MaximumParseDepthExceeded }
+pub open spec fn perr(e: Error) -> bool { e is UnexpectedEndOfFile || e is Lexical || e is UnexpectedToken || e is MaximumParseDepthExceeded || e is IllegalType }
 pub open spec fn perr_loc(e: Error) -> Location {
 	match e {
 		Error::UnexpectedEndOfFile { location, .. } => location,
 		Error::Lexical { location, .. } => location,
 		Error::UnexpectedToken { location, .. } => location,
 		Error::MaximumParseDepthExceeded { location } => location,
+		Error::IllegalType { location, .. } => location,
 		_ => arbitrary(),
 	}
 }
@@ -100,3 +101,62 @@ pub open spec fn err_at(t0: Tokens, e: Error) -> bool {
 	&&& perr_loc(e).span.end <= end_loc(t0).span.end
 	&&& (e is UnexpectedEndOfFile ==> perr_loc(e) == end_loc(t0) && e->UnexpectedEndOfFile_last_location == end_loc(t0))
 }
+
+// ---- composition lemmas for many-armed functions (U-PSPAN2 hides the quantified definitions inside parse_primary_expression) ---------
+pub proof fn lemma_stream_head(t: Tokens)
+	requires stream_wf(t),
+	ensures forward(t.last_location), t.tokens@.len() > 0 ==> forward(first_loc(t)) && first_loc(t).span.end <= end_loc(t).span.end,
+{
+}
+// after the first token of t0 has been taken (t1): its location precedes the rest, errors of the rest are errors of the whole
+pub proof fn lemma_first_taken(t0: Tokens, t1: Tokens)
+	requires stream_wf(t0), stream_wf(t1), took(t0, t1, 1), taken(t0, t1) == 1,
+	ensures precedes(first_loc(t0), t1), t1.last_location == first_loc(t0), forward(first_loc(t0)),
+		first_loc(t0).span.end <= end_loc(t0).span.end,
+		forall|e: Error| #[trigger] err_at(t1, e) ==> err_at(t0, e),
+		node_at(t0, t1, first_loc(t0), 0),
+{
+	if t1.tokens@.len() > 0 { assert(t1.tokens@[0] == t0.tokens@[1]); }
+}
+// t1 is t0 with a front part taken, t2 is t1 with at least `least` more: the whole, and what extends the first token spans the whole
+pub proof fn lemma_rest_taken(t0: Tokens, t1: Tokens, t2: Tokens, least: int)
+	requires stream_wf(t0), stream_wf(t2), took(t0, t1, 1), took(t1, t2, least), 0 <= least,
+	ensures took(t0, t2, 1 + least), taken(t0, t2) == taken(t0, t1) + taken(t1, t2),
+		forall|e: Error| #[trigger] err_at(t2, e) ==> err_at(t0, e),
+		forall|l: Location| #[trigger] extends_loc(first_loc(t0), t1, t2, l, least) && taken(t0, t1) == 1 ==> node_at(t0, t2, l, 0),
+		forward(t2.last_location), t2.last_location.span.end <= end_loc(t0).span.end && first_loc(t0).span.end <= t2.last_location.span.end,
+		first_loc(t0).span.start <= t2.last_location.span.start,
+		t2.tokens@.len() > 0 ==> t2.last_location.span.start <= first_loc(t2).span.start && t2.last_location.span.end <= first_loc(t2).span.end,
+{
+	lemma_took_trans(t0, t1, t2, 1, least);
+	let k = taken(t0, t2);
+	assert(t2.last_location == t0.tokens@[k - 1].location);
+	if t2.tokens@.len() > 0 { assert(t2.tokens@[0] == t0.tokens@[k]); }
+}
+
+// ---- statements ---------------------------------------------------------------------------------------------------------------------------
+// the location a statement carries (Statement::location; a poison has none).  As the code stands, `if`, `loop`, `goto`, `var` and
+// assignments are located by their FIRST token only; a block by `{` .. `}`; a label by name and colon; a call by its name.
+pub open spec fn sloc(s: Statement) -> Location {
+	match s {
+		Statement::Declaration { location, .. } => location,
+		Statement::Assignment { location, .. } => location,
+		Statement::MethodCall { name, .. } => name.location,
+		Statement::Loop { location } => location,
+		Statement::Goto { location, .. } => location,
+		Statement::Label { location, .. } => location,
+		Statement::If { location, .. } => location,
+		Statement::Block(block) => block.location,
+		Statement::Poison(_) => arbitrary(),
+	}
+}
+// a node located by its first token alone (statements) spans the tokens taken
+pub proof fn lemma_node_first(t0: Tokens, t1: Tokens)
+	requires stream_wf(t0), took(t0, t1, 1),
+	ensures node_at(t0, t1, first_loc(t0), 0),
+{
+	let k = taken(t0, t1);
+	assert(t1.last_location == t0.tokens@[k - 1].location);
+}
+// the reservation changes what the cursor shows, not what it holds
+pub open spec fn same_tokens(a: Tokens, b: Tokens) -> bool { a.tokens == b.tokens && a.last_location == b.last_location }
